@@ -293,6 +293,331 @@ theorem matcher_correct_envoy_filter (key : Str) (vs : List Str) (tcp : Bool) (r
       simp only [Function.comp, evalVal_envoyFilterValue]
       split <;> cases x <;> rfl
 
+
+/-! ## 13. requestPrincipals / request.auth.principal -/
+
+theorem sl_reverse (a u : Str) : (sl a u).reverse = sl u.reverse a.reverse := by
+  simp [sl]
+
+theorem mem_reverse_iff (c : Char) (s : Str) : c ∈ s.reverse ↔ c ∈ s := List.mem_reverse
+
+/-- Equality of `a/u` and `b/w` when the parts after the (last) slash are slash-free. -/
+theorem sl_inj_last {a b u w : Str} (hu : '/' ∉ u) (hw : '/' ∉ w) : sl a u = sl b w ↔ a = b ∧ u = w := by
+  constructor
+  · intro h
+    have := congrArg List.reverse h
+    rw [sl_reverse, sl_reverse, sl_inj (by simpa using hu) (by simpa using hw)] at this
+    exact ⟨List.reverse_inj.1 this.2, List.reverse_inj.1 this.1⟩
+  · rintro ⟨rfl, rfl⟩; rfl
+
+theorem sl_suffix_sl {a b u w : Str} (hu : '/' ∉ u) (hw : '/' ∉ w) :
+    sl a u <:+ sl b w ↔ u = w ∧ a <:+ b := by
+  rw [← List.reverse_prefix, sl_reverse, sl_reverse, sl_prefix_sl (by simpa using hu) (by simpa using hw),
+    List.reverse_prefix]
+  constructor
+  · rintro ⟨h1, h2⟩; exact ⟨List.reverse_inj.1 h1, h2⟩
+  · rintro ⟨rfl, h2⟩; exact ⟨rfl, h2⟩
+
+theorem suffix_of_slashFree_sl {x a w : Str} (hx : '/' ∉ x) (h : x <:+ sl a w) : x <:+ w := by
+  rw [← List.reverse_prefix, sl_reverse] at h
+  have := prefix_of_slashFree_sl (by simpa using hx) h
+  rwa [List.reverse_prefix] at this
+
+theorem cut_none (c : Char) (s : Str) (h : cut c s = none) : c ∉ s := by
+  induction s with
+  | nil => simp
+  | cons x xs ih =>
+    simp only [cut] at h
+    by_cases hx : x = c
+    · simp [hx] at h
+    · simp only [hx, if_false] at h
+      cases hc : cut c xs with
+      | none =>
+        simp only [List.mem_cons, not_or]
+        exact ⟨fun e => hx e.symm, ih hc⟩
+      | some ab => obtain ⟨a, b⟩ := ab; simp [hc] at h
+
+theorem cutLast_eq (c : Char) (s a b : Str) (h : cutLast c s = some (a, b)) :
+    s = a ++ c :: b ∧ c ∉ b := by
+  unfold cutLast at h
+  cases hc : cut c s.reverse with
+  | none => simp [hc] at h
+  | some xy =>
+    obtain ⟨x, y⟩ := xy
+    simp only [hc, Option.some.injEq, Prod.mk.injEq] at h
+    obtain ⟨rfl, rfl⟩ := h
+    obtain ⟨h1, h2⟩ := cut_eq c s.reverse x y hc
+    constructor
+    · have := congrArg List.reverse h1
+      simpa using this
+    · simpa using h2
+
+theorem cutLast_none (c : Char) (s : Str) (h : cutLast c s = none) : c ∉ s := by
+  unfold cutLast at h
+  cases hc : cut c s.reverse with
+  | none => have := cut_none c s.reverse hc; simpa using this
+  | some xy => simp [hc] at h
+
+/-- `a/S'` is a prefix of `i/s` (S', s slash-free): either already of `i`, or `a = i` and `S'` is a prefix of `s`. -/
+theorem sl_prefix_cases {I S' i s : Str} (hS : '/' ∉ S') (hs : '/' ∉ s) (h : sl I S' <+: sl i s) :
+    sl I S' <+: i ∨ (I = i ∧ S' <+: s) := by
+  obtain ⟨r, hr⟩ := h
+  have hr' : I ++ ('/' :: (S' ++ r)) = i ++ ('/' :: s) := by simpa [sl] using hr
+  rcases List.append_eq_append_iff.1 hr' with ⟨a', hi, hx⟩ | ⟨c', hI, hy⟩
+  · cases a' with
+    | nil =>
+      simp only [List.nil_append, List.cons.injEq, true_and] at hx
+      right
+      exact ⟨by simpa using hi.symm, ⟨r, hx⟩⟩
+    | cons c a'' =>
+      simp only [List.cons_append, List.cons.injEq] at hx
+      obtain ⟨rfl, hx⟩ := hx
+      left
+      rw [hi]
+      obtain ⟨q, hq⟩ : S' <+: a'' := prefix_of_slashFree_sl hS ⟨r, hx⟩
+      exact ⟨q, by simp [sl, ← hq]⟩
+  · cases c' with
+    | nil =>
+      simp only [List.nil_append, List.cons.injEq, true_and] at hy
+      right
+      exact ⟨by simpa using hI, ⟨r, hy.symm⟩⟩
+    | cons c c'' =>
+      simp only [List.cons_append, List.cons.injEq] at hy
+      obtain ⟨rfl, hy⟩ := hy
+      exact absurd (by rw [hy]; simp) hs
+
+theorem dropLast_append_singleton (a : Str) (c : Char) : (a ++ [c]).dropLast = a := by simp
+
+theorem hasPrefix_star_iff (v : Str) : hasPrefix star v = true ↔ ∃ t, v = '*' :: t := by
+  cases v with
+  | nil => simp [hasPrefix, star, List.isPrefixOf]
+  | cons c t =>
+    simp only [hasPrefix, star, List.isPrefixOf, Bool.and_eq_true, beq_iff_eq, List.cons.injEq]
+    constructor
+    · rintro ⟨h, -⟩; exact ⟨t, h.symm, rfl⟩
+    · rintro ⟨t', h, -⟩; exact ⟨h.symm, by cases t <;> trivial⟩
+
+theorem hasSuffix_star_iff (v : Str) : hasSuffix star v = true ↔ ∃ t, v = t ++ ['*'] := by
+  rw [hasSuffix, List.isSuffixOf_iff_suffix]
+  constructor
+  · rintro ⟨t, h⟩; exact ⟨t, h.symm⟩
+  · rintro ⟨t, h⟩; exact ⟨t, h.symm⟩
+
+theorem trimPrefix_star_cons (t : Str) : trimPrefix star ('*' :: t) = t := by
+  simp [trimPrefix, star, List.isPrefixOf]
+
+theorem trimSuffix_star_append (t : Str) : trimSuffix star (t ++ ['*']) = t := by
+  have : star.isSuffixOf (t ++ ['*']) = true := by
+    rw [List.isSuffixOf_iff_suffix]; exact ⟨t, rfl⟩
+  simp [trimSuffix, this, star]
+
+/-- the part after the last '/' of a string ending in '*' ends in '*' -/
+theorem cutLast_star_end (t I S : Str) (h : t ++ ['*'] = I ++ '/' :: S) :
+    ∃ S', S = S' ++ ['*'] ∧ t = I ++ '/' :: S' := by
+  have hr := congrArg List.reverse h
+  simp only [List.reverse_append, List.reverse_cons, List.reverse_nil, List.nil_append,
+    List.singleton_append, List.append_assoc] at hr
+  cases hS : S.reverse with
+  | nil =>
+    rw [hS] at hr
+    simp at hr
+  | cons c r =>
+    rw [hS] at hr
+    simp only [List.cons_append, List.cons.injEq] at hr
+    obtain ⟨rfl, hr⟩ := hr
+    refine ⟨r.reverse, ?_, ?_⟩
+    · have := congrArg List.reverse hS
+      simpa using this
+    · have := congrArg List.reverse hr
+      simpa using this
+
+/-- The (issuer, subject) matcher pair generated for one `requestPrincipals` value means the value
+    form over `<iss>/<sub>`. -/
+theorem requestPrincipalPair_correct (v i s : Str) (hi : i ≠ []) (hs : s ≠ []) (hsl : '/' ∉ s)
+    (hok : rpPrefixOK v i = true) :
+    (evalStrM (requestPrincipalPair v).1 i && evalStrM (requestPrincipalPair v).2 s) =
+      strForm v (sl i s) := by
+  have hne_i : i.isEmpty = false := by simpa using hi
+  have hne_s : s.isEmpty = false := by simpa using hs
+  unfold requestPrincipalPair strForm
+  by_cases h1 : v = star
+  · simp [h1, evalStrM, rx_anyNonEmpty, hne_i, hne_s, sl]
+  · simp only [h1, if_false]
+    by_cases h2 : hasPrefix star v = true
+    · simp only [h2, if_true]
+      obtain ⟨t, rfl⟩ := (hasPrefix_star_iff v).1 h2
+      cases hc : cutLast '/' ('*' :: t) with
+      | some IS =>
+        obtain ⟨I, S⟩ := IS
+        obtain ⟨hv, hS⟩ := cutLast_eq '/' _ I S hc
+        simp only [Option.isSome_some, if_true]
+        cases I with
+        | nil => simp at hv
+        | cons c I' =>
+          simp only [List.cons_append, List.cons.injEq] at hv
+          obtain ⟨rfl, rfl⟩ := hv
+          rw [trimPrefix_star_cons]
+          have hdrop : List.drop 1 ('*' :: (I' ++ '/' :: S)) = sl I' S := rfl
+          rw [hdrop]
+          have hspec : hasSuffix (sl I' S) (sl i s) = (hasSuffix I' i && s == S) := by
+            rw [Bool.eq_iff_iff]
+            simp only [hasSuffix, List.isSuffixOf_iff_suffix, sl_suffix_sl hS hsl, Bool.and_eq_true,
+              beq_iff_eq]
+            constructor
+            · rintro ⟨rfl, h⟩; exact ⟨h, rfl⟩
+            · rintro ⟨h, rfl⟩; exact ⟨rfl, h⟩
+          rw [hspec]
+          by_cases hI : ('*' :: I') = star
+          · have : I' = [] := by simpa [star] using hI
+            subst this
+            simp [evalStrM, rx_anyNonEmpty, hne_i, star, hasSuffix]
+          · simp only [hI, if_false, evalStrM, Bool.false_eq_true]
+      | none =>
+        have hnv := cutLast_none '/' _ hc
+        simp only [Option.isSome_none, Bool.false_eq_true, if_false, evalStrM, rx_anyNonEmpty, hne_i,
+          Bool.not_false, Bool.true_and, trimPrefix_star_cons]
+        have hv' : '/' ∉ t := fun hm => hnv (List.mem_cons_of_mem _ hm)
+        have hdrop : List.drop 1 ('*' :: t) = t := rfl
+        rw [hdrop, Bool.eq_iff_iff]
+        simp only [hasSuffix, List.isSuffixOf_iff_suffix]
+        constructor
+        · rintro ⟨q, hq⟩; exact ⟨i ++ '/' :: q, by simp [sl, ← hq]⟩
+        · intro h; exact suffix_of_slashFree_sl hv' h
+    · have h2' : hasPrefix star v = false := Bool.eq_false_iff.2 h2
+      simp only [h2', Bool.false_eq_true, if_false]
+      by_cases h3 : hasSuffix star v = true
+      · simp only [h3, if_true]
+        obtain ⟨t, rfl⟩ := (hasSuffix_star_iff v).1 h3
+        cases hc : cutLast '/' (t ++ ['*']) with
+        | some IS =>
+          obtain ⟨I, S⟩ := IS
+          obtain ⟨hv, hS⟩ := cutLast_eq '/' _ I S hc
+          simp only [Option.isSome_some, if_true]
+          obtain ⟨S', rfl, rfl⟩ := cutLast_star_end t I S hv
+          have hS' : '/' ∉ S' := fun hm => hS (List.mem_append_left _ hm)
+          rw [trimSuffix_star_append, dropLast_append_singleton]
+          have hcontains : (I ++ '/' :: S' ++ ['*']).contains '/' = true := by simp
+          have hnp : hasPrefix (sl I S') i = false := by
+            unfold rpPrefixOK at hok
+            have h1' : ((I ++ '/' :: S' ++ ['*']) != star) = true := by simpa using h1
+            simp only [h1', h2', h3, hcontains, Bool.not_false, Bool.true_and, Bool.and_true,
+              dropLast_append_singleton, Bool.not_eq_true'] at hok
+            exact hok
+          have hspec : hasPrefix (I ++ '/' :: S') (sl i s) = (i == I && hasPrefix S' s) := by
+            rw [Bool.eq_iff_iff]
+            simp only [hasPrefix, List.isPrefixOf_iff_prefix, Bool.and_eq_true, beq_iff_eq]
+            constructor
+            · intro h
+              rcases sl_prefix_cases hS' hsl h with h' | ⟨h', h''⟩
+              · have : hasPrefix (sl I S') i = true := by
+                  simpa [hasPrefix, List.isPrefixOf_iff_prefix] using h'
+                rw [hnp] at this; cases this
+              · exact ⟨h'.symm, h''⟩
+            · rintro ⟨rfl, ⟨q, hq⟩⟩
+              exact ⟨q, by simp [sl, ← hq]⟩
+          rw [hspec]
+          by_cases hSs : (S' ++ ['*']) = star
+          · have : S' = [] := by
+              cases S' with
+              | nil => rfl
+              | cons c t => simp [star] at hSs
+            subst this
+            simp [evalStrM, rx_anyNonEmpty, hne_s, star, hasPrefix]
+          · simp only [hSs, if_false, evalStrM, Bool.false_eq_true]
+        | none =>
+          have hnv := cutLast_none '/' _ hc
+          simp only [Option.isSome_none, Bool.false_eq_true, if_false, evalStrM, rx_anyNonEmpty, hne_s,
+            Bool.not_false, Bool.and_true, trimSuffix_star_append, dropLast_append_singleton]
+          have hdl : '/' ∉ t := fun hm => hnv (List.mem_append_left _ hm)
+          rw [Bool.eq_iff_iff]
+          simp only [hasPrefix, List.isPrefixOf_iff_prefix]
+          constructor
+          · intro h; exact h.trans (List.prefix_append _ _)
+          · intro h; exact prefix_of_slashFree_sl hdl h
+      · have h3' : hasSuffix star v = false := Bool.eq_false_iff.2 h3
+        simp only [h3', Bool.false_eq_true, if_false, evalStrM]
+        cases hc : cutLast '/' v with
+        | some IS =>
+          obtain ⟨I, S⟩ := IS
+          obtain ⟨hv, hS⟩ := cutLast_eq '/' v I S hc
+          simp only
+          rw [Bool.eq_iff_iff]
+          have : v = sl I S := hv
+          simp only [Bool.and_eq_true, beq_iff_eq, this, sl_inj_last hsl hS]
+        | none =>
+          have hnv := cutLast_none '/' v hc
+          simp only
+          have : (s == ([] : Str)) = false := by simpa using hs
+          rw [this, Bool.and_false]
+          symm
+          rw [Bool.eq_false_iff]
+          intro h
+          rw [beq_iff_eq] at h
+          exact hnv (h ▸ slash_mem_sl i s)
+
+
+theorem evalMeta_jwtClaimStr (c : Str) (m : StrM) (req : Request) :
+    evalMeta (jwtClaimStr c m) req =
+      match claim req [c] with
+      | some (.str s) => evalStrM m s
+      | _ => false := by
+  unfold evalMeta jwtClaimStr claim
+  simp only
+  cases lookupMeta req jwtFilterName [jwtPayload, c] with
+  | none => rfl
+  | some x => cases x <;> simp [evalVal]
+
+theorem eval_requestPrincipalOne (v : Str) (req : Request) (hjwt : req.jwtOK = true)
+    (hv : rpValueOK v req = true) :
+    evalM (requestPrincipalOne v) req = specAtom .requestPrincipal [] v req := by
+  unfold requestPrincipalOne
+  simp only [evalM, evalAll, Bool.and_true, evalMeta_jwtClaimStr, specAtom]
+  unfold Request.jwtOK at hjwt
+  unfold rpValueOK at hv
+  cases hi : claim req ["iss".toList] with
+  | none => simp
+  | some x =>
+    cases x with
+    | strs l => simp
+    | str i =>
+      cases hs : claim req ["sub".toList] with
+      | none => simp
+      | some y =>
+        cases y with
+        | strs l => simp
+        | str s =>
+          simp only [hi, hs, Bool.and_eq_true, Bool.not_eq_true', List.isEmpty_eq_false_iff,
+            List.contains_eq_mem, decide_eq_false_iff_not] at hjwt hv
+          have := requestPrincipalPair_correct v i s hjwt.1.1 hjwt.1.2 hjwt.2 hv
+          have hne_i : i.isEmpty = false := by simpa using hjwt.1.1
+          have hne_s : s.isEmpty = false := by simpa using hjwt.1.2
+          have hsl : i ++ ['/'] ++ s = sl i s := by simp [sl]
+          simp only [this, hne_i, hne_s, Bool.not_false, Bool.true_and, hsl]
+
+/-- `requestPrincipals` / `request.auth.principal`: exact under `jwtOK` and `rpValueOK` (the
+    excluded case is finding 2). -/
+theorem matcher_correct_request_principal (key : Str) (vs : List Str) (tcp : Bool) (req : Request)
+    (hjwt : req.jwtOK = true) (hv : ∀ v ∈ vs, rpValueOK v req = true) :
+    ExtExact .requestPrincipal key vs tcp req := by
+  refine ⟨fun p hp => by simp [genExtPermission] at hp, fun p hp => ?_⟩
+  cases tcp <;> simp only [genExtPrincipal, Bool.false_eq_true, if_false, if_true] at hp
+  · have hany : evalM p req = (vs.map requestPrincipalOne).any (evalM · req) := by
+      split at hp
+      · rename_i one h1
+        simp only [Option.some.injEq] at hp
+        subst hp
+        rw [h1]; simp
+      · simp only [Option.some.injEq] at hp
+        subst hp
+        simp [evalM, evalAny_eq]
+    rw [hany, List.any_map]
+    apply any_congr_mem
+    intro v hvm
+    simp only [Function.comp]
+    rw [eval_requestPrincipalOne v req hjwt (hv v hvm)]
+    simp [specAtom]
+  · cases hp
+
 /-! ## 7. Discharging the hypotheses: decidable scope predicates -/
 
 theorem extScope_cases (g : Gen) (h : g.extInScope = true) :
@@ -300,12 +625,23 @@ theorem extScope_cases (g : Gen) (h : g.extInScope = true) :
   cases g <;> simp [Gen.extInScope] at h <;> simp
 
 theorem ruleExact_of_scope (o : BuildOpts) (req : Request) (pns : Str) (r : Rule)
-    (hs : ruleInScope pns r = true) (hr : req.peerOK = true) : RuleExact o req pns r := by
+    (hs : ruleInScope req pns r = true) (hr : req.peerOK = true) : RuleExact o req pns r := by
   intro m hm rl hrl mr hmr
   unfold ruleInScope at hs
   simp only [hm, List.all_eq_true] at hs
   have h := hs rl hrl mr hmr
-  simp only [mruleInScope, Bool.and_eq_true, Bool.or_eq_true, Bool.not_eq_true', List.all_eq_true] at h
+  unfold mruleInScope at h
+  by_cases hrp : mr.g = .requestPrincipal
+  · simp only [hrp, if_true, Bool.and_eq_true, List.all_eq_true] at h
+    constructor
+    · intro hne; rw [hrp] at hne; cases hne
+    · intro _
+      rw [hrp]
+      exact ⟨matcher_correct_request_principal mr.key _ o.forTCP req h.1
+              (fun v hv => h.2 v (List.mem_append_left _ hv)),
+             matcher_correct_request_principal mr.key _ o.forTCP req h.1
+              (fun v hv => h.2 v (List.mem_append_right _ hv))⟩
+  simp only [hrp, if_false, Bool.and_eq_true, Bool.or_eq_true, Bool.not_eq_true', List.all_eq_true] at h
   constructor
   · intro _ v hv
     exact matcher_correct_principals mr.g mr.key v o.forTCP o.useAuth req (h.2 v hv) hr
